@@ -62,7 +62,7 @@ def gen_cases(c):
         return bytes(rng.choice(b"abc \t") for _ in range(n))
     # every length 0..72 (all tail lengths with 0..9 blocks) x content kinds; then sparser
     lens = list(range(0, 73)) + [79, 80, 81, 127, 128, 129, 255, 256, 257] + [rng.randrange(73, 700) for _ in range(12)]
-    if c.tier == "thorough":
+    if c.volume == "thorough":
         lens += list(range(73, 200)) + [rng.randrange(200, 3000) for _ in range(40)]
     for n in lens:
         for kind in (("rand", "hi", "zero", "ff", "text") if n <= 72 else ("rand", "hi")):
@@ -85,7 +85,7 @@ def gen_cases(c):
         lines.append("M %d %d %s" % (seed, n, hx(b)))
         meta.append(("M", seed, b[:n], None))
     # the field fold and the shard index
-    for _ in range(250 if c.tier == "quick" else 2500):
+    for _ in range(250 if c.volume == "quick" else 2500):
         k = rng.choice((0, 1, 1, 2, 2, 3, 5))
         pieces = [content(rng.choice((0, 0, 1, 3, 7, 8, 9, 15, 16, 17, rng.randrange(0, 40))), rng.choice(("text", "rand", "hi"))) for _ in range(k)]
         if rng.random() < 0.6:
@@ -142,6 +142,7 @@ def meta_of_line(l):
 
 def main(argv):
     c = Check("C14", argv)
+    c.volume = c.tier     # generator volume; raised to thorough when the translator could only keep old constants
     tools = ["hx_murmur", "mmhsum", "order_independent_hash", "shard", "subtract_lines", "train_case", "apply_case"]
     ok, blog = build_repo(tools)
     if not ok:
@@ -157,6 +158,7 @@ def main(argv):
     if note:
         c.assumptions.append("translator: the shape of the anchored code changed (" + note[:300] + "); the tie of the model to the code rests on the correspondence run below")
         log("  note: " + note[:300])
+        c.volume = "thorough"   # the shape of the code changed: the tie rests on the correspondence run, so make it the big one
     if c.tier == "thorough":
         coqchk(c)
     drv, dlog = build_driver("C14")
@@ -210,7 +212,7 @@ def main(argv):
     asan_lines(c, "hx_murmur", lines, "(exact-size heap buffers)")
 
     # ---- native grid: all lengths x 8 alignments next to a PROT_NONE page, vs the Python reference
-    maxlen = 512 if c.tier == "quick" else 4096
+    maxlen = 512 if c.volume == "quick" else 4096
     gseeds = [0, 1, SHARD_SEED, rng.getrandbits(64)]
     st, mo, _ = run_tool([impl, "MASTER", str(maxlen)], timeout=60)
     master = bytes.fromhex(mo.decode().strip()) if st == 0 else b""
@@ -275,7 +277,7 @@ def main(argv):
             small_model.append(("X " + hx(data), so.decode("latin1").strip()))
     # order_independent_hash
     oih = []
-    for _ in range(12 if c.tier == "quick" else 100):
+    for _ in range(12 if c.volume == "quick" else 100):
         ls = [bytes(rng.choice(b"abcdefgh \t\x80\xff") for _ in range(rng.choice((0, 1, 5, 8, 13, 30)))) for _ in range(rng.randrange(0, 9))]
         data = b"".join(l + b"\n" for l in ls)
         st, so, se = run_tool([repo_bin("order_independent_hash")], stdin=data, timeout=60)
@@ -301,7 +303,7 @@ def main(argv):
     for nsh, fargs, keyfn in ((3, [], lambda l: [l]), (7, [], lambda l: [l]), (4, ["-f", "2", "-d", " "], lambda l: [l.split(b" ")[1]]),
                               (5, ["-f", "1,3", "-d", " "], lambda l: [l.split(b" ")[0], l.split(b" ")[2]])):
         ls = []
-        for _ in range(40 if c.tier == "quick" else 400):
+        for _ in range(40 if c.volume == "quick" else 400):
             words = [bytes(rng.choice(b"abcdefxyz\xc3\xa9") for _ in range(rng.randrange(1, 12))) for _ in range(4)]
             ls.append(b" ".join(words))
         outs = [os.path.join(SCRATCH, "shard%d" % i) for i in range(nsh)]
